@@ -41,3 +41,9 @@ CHECK["assumptions"] = [
     "the wrapped reader and writer obey the io.Reader / io.Writer count contract (0 <= n <= len(p))",
     "single-threaded use (Read is documented as not safe for concurrent use)",
 ]
+CHECK["stages"] = CHECK["stages"] + [{"name": "nested", "pkg": "./checks/c15/nested"}]
+CHECK["assumptions"] = CHECK["assumptions"] + [
+    "stage nested: a LimitReader wrapped in a LimitReader keeps both limits for every order of reads through the two "
+    "handles (all sequences of <= 6 reads of 1..3 bytes, limits 0..4), larger nested limits drained handle after handle, "
+    "and limits of 2^15..2^64-1 pass everything through",
+]
